@@ -305,6 +305,9 @@ func findReference(msaIn io.Reader, referenceID string) (fastaio.EncodedFastaRec
 			}
 
 			description = string(line[1:])
+			if len(strings.Fields(description)) == 0 {
+				return fastaio.EncodedFastaRecord{}, errors.New("badly formatted fasta file: header line without a sequence ID")
+			}
 			id = strings.Fields(description)[0]
 
 			if id == referenceID {
@@ -328,6 +331,9 @@ func findReference(msaIn io.Reader, referenceID string) (fastaio.EncodedFastaRec
 
 			counter++
 			description = string(line[1:])
+			if len(strings.Fields(description)) == 0 {
+				return fastaio.EncodedFastaRecord{}, errors.New("badly formatted fasta file: header line without a sequence ID")
+			}
 			id = strings.Fields(description)[0]
 			seqBuffer = make([]byte, 0)
 
